@@ -520,6 +520,11 @@ def run(ctx: Ctx):
     # --- 11. the reference workbooks of the suite (real files -> real model objects) ------------------------------------------
     _reference_workbooks(ctx)
 
+    # --- 12. the format-selection glue: set_cell_formatting('datetime') / Formatting / formatted_value dispatch, date and duration
+    #         cells of every fixture document ----------------------------------------------------------------------------------
+    from checks import fmtglue
+    fmtglue.run_c14(ctx)
+
 
 def translated_source_stream(ctx: Ctx, dur_vals: list[int]):
     """_day_of_year / _week_of_month / _days_occurred_in_month / _decode_date_format / _unit_format / _auto_units called
@@ -712,6 +717,9 @@ def _reference_workbooks(ctx: Ctx):
 def replay(data):
     warnings.simplefilter("ignore")
     i = data.get("input", {})
+    if i.get("glue"):
+        from checks import fmtglue
+        return fmtglue.replay(i)
     res = {}
     if "ms" in i and "style" in i:
         res["formatted_value"] = _dec(_dur_render(_DurStub(), i["ms"], i["style"], i["largest"], i["smallest"], i["auto"]))
